@@ -89,6 +89,20 @@ ImportSetup(k, m, have) == /\ Bound /\ have \in BOOLEAN
                            /\ UNCHANGED <<params, proof>> /\ nid' = nid + 1
                            /\ IF m \in Modes /\ have THEN keys' = [keys EXCEPT ![k] = [kind |-> "keys", mode |-> m, dim |-> "A", id |-> nid + 1]] ELSE UNCHANGED keys
                            /\ Step([cmd |-> "import-setup", key |-> k, mode |-> m, have |-> have], YN(m \in Modes /\ have), "empty")
+\* start --mode m --keys-file k, then (once both listeners answer) POST the parameter file to /prove and write a 200 body to the proof
+\* file, then SIGINT.  The service comes up iff the mode is known and the keys file loads; otherwise the command ends by itself with a
+\* non-zero status and never listens.  After SIGINT a service that came up exits 0.  The answer to the POST is the one `prove` would give:
+\* "proof" (200, a proof that `verify` accepts for the batch's hash), "error" (400), "any" with keys of the other known mode.
+Serve(k, m) == /\ Bound
+               /\ LET up   == m \in Modes /\ keys[k].kind = "keys"
+                      ok   == /\ up /\ keys[k].mode = m
+                              /\ params.kind = "params" /\ params.mode = m /\ params.dim = keys[k].dim /\ params.valid
+                      open == up /\ keys[k].mode # m /\ params.kind = "params"
+                      ans  == IF ~up \/ params.kind # "params" THEN "empty" ELSE IF open THEN "any" ELSE IF ok THEN "proof" ELSE "error"
+                  IN /\ proof' = (IF ans = "proof" THEN [kind |-> "proof", keyid |-> keys[k].id, batch |-> params.batch]
+                                  ELSE IF ans = "any" THEN [kind |-> "unknown"] ELSE proof)      \* only a 200 body is written to the proof file
+                     /\ Step([cmd |-> "serve", key |-> k, mode |-> m], YN(up), ans)
+               /\ UNCHANGED <<keys, params, nid>>
 ExtractCircuit == /\ Bound /\ UNCHANGED <<keys, params, proof, nid>> /\ Step([cmd |-> "extract-circuit"], "yes", "empty")
 
 Next == \/ \E k \in KeyFiles, m \in Modes \cup BadModes, d \in Dims : Setup(k, m, d)
@@ -100,6 +114,7 @@ Next == \/ \E k \in KeyFiles, m \in Modes \cup BadModes, d \in Dims : Setup(k, m
         \/ \E k \in KeyFiles : Remove(k)
         \/ \E m \in Modes \cup BadModes, d \in Dims, v \in BOOLEAN : GenParams(m, d, v)
         \/ \E k \in KeyFiles, m \in Modes \cup BadModes : Prove(k, m)
+        \/ \E k \in KeyFiles, m \in Modes \cup BadModes : Serve(k, m)
         \/ Tamper
         \/ \E k \in KeyFiles, m \in Modes \cup BadModes, h \in {"own", "other", "junk"} : Verify(k, m, h)
         \/ \E k, k2 \in KeyFiles : Convert(k, k2)
@@ -107,7 +122,8 @@ Spec == Init /\ [][Next]_vars
 
 \* a success status is never reported for a wrong result
 TruthfulExit == \A i \in 1..Len(hist) :
-   /\ (hist[i].cmd \in {"setup", "gen-test-params", "prove", "verify", "r1cs", "import-setup"} /\ hist[i].mode \in BadModes => hist[i].exit0 = "no")
+   /\ (hist[i].cmd \in {"setup", "gen-test-params", "prove", "verify", "r1cs", "import-setup", "serve"} /\ hist[i].mode \in BadModes => hist[i].exit0 = "no")
+   /\ (hist[i].cmd = "serve" /\ hist[i].exit0 = "no" => hist[i].stdout = "empty")          \* a service that does not come up answers nothing
    /\ (hist[i].cmd = "prove" /\ hist[i].exit0 # "any" => (hist[i].exit0 = "yes" <=> hist[i].stdout = "proof"))
 Export == Len(hist) = MaxSteps => PrintT("TRACE " \o ToJson(hist))
 NoHistView == <<keys, params, proof>>
